@@ -7,6 +7,7 @@ import (
 	"math"
 	"math/big"
 	"strings"
+	"unsafe"
 
 	"github.com/db47h/decimal"
 
@@ -283,10 +284,18 @@ func (vm *progVM) step() *progStep {
 		f = func() { z.Copy(x) }
 	case op < 47:
 		p := vm.genPrec()
+		want := p
+		if r.Chance(3) { // "If prec > MaxPrec, it is set to MaxPrec": arguments beyond the 32-bit field
+			p = []uint{decimal.MaxPrec + 1, 1 << 32, 1<<32 + 7, math.MaxUint64, decimal.MaxPrec, decimal.MaxPrec - 5, 1<<33 + uint(r.Range(1, 500))}[r.Intn(7)]
+			want = p
+			if want > decimal.MaxPrec {
+				want = decimal.MaxPrec
+			}
+		}
 		st.op = fmt.Sprintf("SetPrec(%d)", p)
 		st.precRule = func(pre hx.Raw, got uint) string {
-			if got != p {
-				return fmt.Sprintf("SetPrec(%d) left precision %d", p, got)
+			if got != want {
+				return fmt.Sprintf("SetPrec(%d) left precision %d, want %d", p, got, want)
 			}
 			return ""
 		}
@@ -381,6 +390,10 @@ func (vm *progVM) step() *progStep {
 		bf := new(big.Float).SetPrec(uint(r.Range(1, 300)))
 		bf.SetInt(hx.CoefOf(r.Digits(r.Range(1, 60))))
 		bf.SetMantExp(bf, r.Range(-3000, 3000))
+		if r.Chance(6) { // the ends of big.Float's own exponent range (the value is still well inside the decimal one)
+			_, e0 := bf.MantExp(nil), bf.MantExp(nil)
+			bf.SetMantExp(bf, []int{math.MinInt32, math.MinInt32 + 1, math.MinInt32 + 70, math.MaxInt32, math.MaxInt32 - 1, math.MaxInt32 - 70}[r.Intn(6)]-e0+r.Range(0, 3))
+		}
 		switch r.Intn(8) {
 		case 0:
 			bf.SetInf(r.Bool())
@@ -390,7 +403,7 @@ func (vm *progVM) step() *progStep {
 		if r.Bool() {
 			bf.Neg(bf)
 		}
-		st.op = fmt.Sprintf("SetFloat(%s prec=%d)", bf.Text('g', 20), bf.Prec())
+		st.op = fmt.Sprintf("SetFloat(%s prec=%d)", bf.Text('p', 0), bf.Prec()) // ('p': decimal output of 2^(2^31) would take forever)
 		want := uint(math.Ceil(float64(bf.Prec()) * (math.Ln2 / math.Ln10)))
 		st.precRule = zeroPrec(want, want)
 		bfc := new(big.Float).Copy(bf)
@@ -711,4 +724,62 @@ func setBitsExpRefPrec(w []decimal.Word) uint {
 		n--
 	}
 	return new(decimal.Decimal).SetBitsExp(cloneW(w[:n]), 0).Prec()
+}
+
+// sharedStorage reports two variables whose mantissa arrays (up to their capacity) overlap: every Decimal owns its
+// digits (Set, Copy, MantExp and the arithmetic copy; only SetBitsExp adopts a slice, and the programs never hand the
+// same slice to two variables). A shared array makes a later in-place operation on one variable change the other.
+// probeSharing is called when two variables share an array: sharing as such is not observable (a copy-on-write
+// discipline would be legitimate), so one variable is modified in place through the public API (rounded to fewer
+// digits, negated, incremented) and the other one must not change. It returns a message if it did.
+func (vm *progVM) probeSharing() string {
+	i, j := vm.sharedPair()
+	if i < 0 {
+		return ""
+	}
+	for _, p := range [][2]int{{i, j}, {j, i}} {
+		a, b := vm.vars[p[0]], vm.vars[p[1]]
+		before := hx.RawOf(b)
+		if a.IsInf() || a.IsZero() {
+			a.SetUint64(98765432109876543)
+		}
+		if mp := a.MinPrec(); mp > 1 {
+			a.SetPrec(mp - 1)
+		}
+		a.Neg(a)
+		a.Add(a, a)
+		if after := hx.RawOf(b); !before.Identical(after) {
+			return fmt.Sprintf("variables v%d and v%d share mantissa storage: rounding, negating and doubling v%d in place changed v%d from %s to %s", i, j, p[0], p[1], briefRaw(before), briefRaw(after))
+		}
+	}
+	return ""
+}
+
+func (vm *progVM) sharedStorage() string {
+	if i, j := vm.sharedPair(); i >= 0 {
+		return fmt.Sprintf("variables v%d and v%d share mantissa storage", i, j)
+	}
+	return ""
+}
+
+func (vm *progVM) sharedPair() (int, int) {
+	type span struct{ lo, hi uintptr }
+	var sp [nVars]span
+	for i, v := range vm.vars {
+		m := decimal.VerifGetRaw(v).Mant
+		if cap(m) == 0 {
+			continue
+		}
+		m = m[:cap(m)]
+		lo := uintptr(unsafe.Pointer(&m[0]))
+		sp[i] = span{lo, lo + uintptr(len(m))*8}
+	}
+	for i := range sp {
+		for j := i + 1; j < len(sp); j++ {
+			if sp[i].hi != 0 && sp[j].hi != 0 && sp[i].lo < sp[j].hi && sp[j].lo < sp[i].hi {
+				return i, j
+			}
+		}
+	}
+	return -1, -1
 }
